@@ -716,3 +716,47 @@ var ExtraFaults = []Fault{
 		return items, []string{owner, "@" + dn}, true
 	}},
 }
+
+func init() {
+	// the same rules, violated inside an extension of a built-in (prelude) type: extensions are merged into
+	// the built-in definition, which must still be validated
+	ext := func(kind, name string) *m.Item { return &m.Item{Kind: kind, Extend: true, Name: name} }
+	Faults = append(Faults,
+		Fault{"undefined-type(output-field)", func(r *core.Rand, items []*m.Item) ([]*m.Item, []string, bool) {
+			n := r.Pick("__Schema", "__Type", "__Field")
+			e := ext("type", n)
+			e.Fields = []*m.FieldDef{{Name: "extraField", Type: &m.Type{Name: "Missing"}}}
+			return append(items, e), []string{n}, true
+		}},
+		Fault{"undefined-directive", func(r *core.Rand, items []*m.Item) ([]*m.Item, []string, bool) {
+			n := r.Pick("String", "Int", "ID")
+			e := ext("scalar", n)
+			e.Dirs = []m.Dir{{Name: "nowhereDefined"}}
+			return append(items, e), []string{n}, true
+		}},
+		Fault{"dup-field", func(r *core.Rand, items []*m.Item) ([]*m.Item, []string, bool) {
+			e := ext("type", "__Type")
+			e.Fields = []*m.FieldDef{{Name: "name", Type: &m.Type{Name: "String"}}}
+			return append(items, e), []string{"__Type"}, true
+		}},
+		Fault{"kind(output-field)", func(r *core.Rand, items []*m.Item) ([]*m.Item, []string, bool) {
+			in := pickItem(r, itemsOfKind(items, false, "input"))
+			if in == nil {
+				return nil, nil, false
+			}
+			e := ext("type", "__Directive")
+			e.Fields = []*m.FieldDef{{Name: "extraField", Type: &m.Type{Name: in.Name}}}
+			return append(items, e), []string{"__Directive", in.Name}, true
+		}},
+		Fault{"undefined-type(input-field)", func(r *core.Rand, items []*m.Item) ([]*m.Item, []string, bool) {
+			// an enum extension is fine, an undefined directive argument type on a new directive is not; here: an
+			// extension of a built-in enum that applies an undefined directive to a value would be directive, so use
+			// a plain kind error instead: built-in enum extended with a value carrying an undefined directive
+			e := ext("enum", "__TypeKind")
+			e.Values = []*m.EnumVal{{Name: "EXTRA", Dirs: []m.Dir{{Name: "nowhereDefined"}}}}
+			return append(items, e), []string{"__TypeKind"}, true
+		}},
+	)
+	// the last entry's code is what the checker reports for it
+	Faults[len(Faults)-1].Code = "undefined-directive"
+}
